@@ -6,7 +6,7 @@ From Coq Require Import String.
 From Coq Require Import List Bool Arith NArith ZArith.
 Import ListNotations.
 Require Import Str Rx RxFacts AsModel G_as_num TextModel TextProofs.
-Require Rx RxFacts RxLang RxSub RxSubFacts AsToken.
+Require Rx RxFacts RxLang RxSub RxSubFacts AsToken G_rx.
 
 Theorem C11_block_preserved_for_every_hash_value :
   forall h asn : Z, (0 <= h)%Z -> (0 <= asn <= 4294967295)%Z ->
@@ -83,6 +83,14 @@ Proof.
     rewrite Forall_forall in Hnn. specialize (Hnn n Hin). destruct n; [contradiction|]. cbn [length] in L. Lia.lia.
 Qed.
 
+(* the model's pattern template against the SOURCE: on a sample list, the AST CPython's parser makes of the pattern text AsNumberAnonymizer builds (regenerated on
+   this run, gen/G_rx.v AS_SAMPLE_RX) reports exactly what the model's as_rx reports, on every line and position (equal up to trailing empty patterns, which
+   lib/RxNorm.v shows to be immaterial).  A change of the template in the source changes the regenerated AST and breaks this. *)
+Theorem C11_pattern_template_is_what_python_compiles_on_a_sample :
+  forall (s : list Rx.chr) (i : nat) (c : Rx.caps),
+  Rx.ms s (as_rx AsToken.AS_SAMPLE) i c = Rx.ms s G_rx.AS_SAMPLE_RX i c.    (* AS_SAMPLE = ["12"; "345"; "12345"] *)
+Proof. exact AsToken.as_template_is_what_python_compiles_on_a_sample. Qed.
+
 Example C11_range_ends : as_repl 0 65000 = AsOk 64512%Z /\ as_repl 1023 65000 = AsOk 65535%Z /\ as_repl 1024 65000 = AsOk 64512%Z.
 Proof. vm_compute. repeat split; reflexivity. Qed.
 
@@ -95,3 +103,4 @@ Print Assumptions C11_a_listed_whole_number_is_matched_as_a_whole.
 Print Assumptions C11_finditer_reports_every_listed_whole_number.
 Print Assumptions C11_finditer_reports_only_listed_whole_numbers.
 Print Assumptions C11_as_pass_rewrites_exactly_the_listed_whole_numbers.
+Print Assumptions C11_pattern_template_is_what_python_compiles_on_a_sample.
